@@ -21,8 +21,8 @@ func c12Tier(tier string) int {
 
 // equivalent compares two values from the native and the alias twin structurally.
 func equivalent(a, b any) string {
-	sa, isSa := stackage.ConvertStack(a)
-	sb, isSb := stackage.ConvertStack(b)
+	sa, isSa := AsStack(a)
+	sb, isSb := AsStack(b)
 	if isSa != isSb {
 		return fmt.Sprintf("%s vs %s", Show(a), Show(b))
 	}
@@ -31,8 +31,8 @@ func equivalent(a, b any) string {
 		ub, _ := sb.Unmarshal()
 		return unmarshalEq(ua, ub, "")
 	}
-	ca, isCa := stackage.ConvertCondition(a)
-	cb, isCb := stackage.ConvertCondition(b)
+	ca, isCa := AsCond(a)
+	cb, isCb := AsCond(b)
 	if isCa != isCb {
 		return fmt.Sprintf("%s vs %s", Show(a), Show(b))
 	}
@@ -50,6 +50,29 @@ func equivalent(a, b any) string {
 func c12Run(c *core.Ctx, idx int) {
 	r := c.Rng
 	nat := c12Gen.Gen(r)
+	closures := r.Chance(1, 3)
+	if closures {
+		// user closures on individual nodes (the same ones in both trees): whatever the parent does with a nested node's
+		// own Unmarshaler / presentation / validity / equality closure, it must do the same for every form of that node
+		nat.Walk(func(n *TNode) {
+			if n.T != "stack" && n.T != "cond" {
+				return
+			}
+			if r.Chance(1, 4) {
+				n.UPol = true
+			}
+			if r.Chance(1, 6) && (n.T == "cond" || n.Kind != "BASIC") {
+				n.PPol = true
+			}
+			if r.Chance(1, 6) {
+				n.VPol = 1 + r.Intn(2)
+			}
+			if r.Chance(1, 6) {
+				n.EPol = 1 + r.Intn(2)
+			}
+		})
+		c.Count("trees.with-node-closures")
+	}
 	ali := nat.Clone()
 	aliases, condExprAliases := 0, 0
 	var assign func(n *TNode, root bool, inCond bool)
@@ -76,6 +99,71 @@ func c12Run(c *core.Ctx, idx int) {
 	var N, A stackage.Stack
 	if p, msg, site := Guard(func() { N, A = nat.BuildStack(), ali.BuildStack() }); p {
 		fail("panic:"+site+":build", "building the trees panicked: %s", msg)
+		return
+	}
+	if closures {
+		// with user closures in the tree the natural baseline is a second NATIVE instance of the same description:
+		// every comparison native-vs-aliased must come out as the same comparison native-vs-native does
+		N2 := nat.BuildStack()
+		var at []int
+		same := func(what, base, got string) bool {
+			if (base == "") != (got == "") {
+				fail("closures:"+what, "%s %v: native vs native twin gives %q, native vs aliased gives %q", what, at, base, got)
+				return false
+			}
+			return true
+		}
+		pan, msg, site := Guard(func() {
+			if sn, sa := N.String(), A.String(); sn != sa {
+				fail("closures:String", "String() %q with aliases, %q native", sa, sn)
+				return
+			}
+			un, en := N.Unmarshal()
+			u2, _ := N2.Unmarshal()
+			ua, ea := A.Unmarshal()
+			if (en == nil) != (ea == nil) || !same("Unmarshal", unmarshalEq(un, u2, "u"), unmarshalEq(un, ua, "u")) {
+				if (en == nil) != (ea == nil) {
+					fail("closures:Unmarshal", "Unmarshal error %v native, %v with aliases", en, ea)
+				}
+				return
+			}
+			es := func(e error) string {
+				if e == nil {
+					return ""
+				}
+				return e.Error()
+			}
+			if !same("IsEqual", es(N.IsEqual(N2)), es(N.IsEqual(A))) || !same("IsEqual(reverse)", es(N2.IsEqual(N)), es(A.IsEqual(N))) {
+				return
+			}
+			if (N.Valid() == nil) != (A.Valid() == nil) {
+				fail("closures:Valid", "Valid() %v native, %v with aliases", N.Valid(), A.Valid())
+				return
+			}
+			for i := -1; i <= 4; i++ {
+				for j := -2; j <= 4; j++ {
+					path := []int{i, j}
+					if j == -2 {
+						path = path[:1]
+					}
+					at = path
+					vn, okn := N.Traverse(path...)
+					v2, _ := N2.Traverse(path...)
+					va, oka := A.Traverse(path...)
+					if okn != oka {
+						fail("closures:Traverse", "Traverse(%v) ok=%v with aliases, %v native", path, oka, okn)
+						return
+					}
+					if okn && !same("Traverse", equivalent(vn, v2), equivalent(vn, va)) {
+						return
+					}
+				}
+			}
+			c.Count("closure-trees-compared")
+		})
+		if pan {
+			fail("panic:"+site+":closures", "panicked: %s", msg)
+		}
 		return
 	}
 	pan, msg, site := Guard(func() {
